@@ -164,7 +164,7 @@ pub mod sets {
     #[verifier::external_body]
     pub fn index_set_new<T>() -> (r: IndexSet<T>) ensures r@ == Set::<T>::empty() { unimplemented!() }
 
-    // ================================================================ IndexMap (iteration side) ==
+    // ======================================================= IndexMap (iteration and entry side) ==
     // inherent impl on the type of shims/maps.rs (same crate, other module)
     impl<K, V> IndexMap<K, V> {
         /// the keys in iteration (insertion) order
@@ -173,6 +173,32 @@ pub mod sets {
         pub fn keys(&self) -> (r: RefIter<'_, K>) ensures yields(r, self.key_order()) { unimplemented!() }
         #[verifier::external_body]
         pub fn is_empty(&self) -> (r: bool) ensures r == (self@.dom().len() == 0) { unimplemented!() }
+    }
+    /// `map.entry(k)` (indexmap::map::Entry), same prophecy pattern as NimEntry in shims/maps.rs:
+    /// the final map is the old map with `k` bound to whatever is finally stored behind the
+    /// reference returned by `or_default()`; every other binding is untouched.
+    #[verifier::external_body]
+    #[verifier::reject_recursive_types(K)]
+    #[verifier::reject_recursive_types(V)]
+    pub struct ImEntry<'a, K, V> { m: &'a mut IndexMap<K, V> }
+    impl<'a, K, V> ImEntry<'a, K, V> {
+        pub uninterp spec fn key(&self) -> K;
+        pub uninterp spec fn map0(&self) -> Map<K, V>;
+        pub uninterp spec fn fin(&self) -> Map<K, V>;
+    }
+    impl<K, V> IndexMap<K, V> {
+        #[verifier::external_body]
+        pub fn entry(&mut self, key: K) -> (e: ImEntry<'_, K, V>)
+            ensures e.key() == key, e.map0() == old(self)@, final(self)@ == e.fin(),
+        { unimplemented!() }
+    }
+    /// `or_default()` for counters (`usize::default() == 0`)
+    impl<'a, K> ImEntry<'a, K, usize> {
+        #[verifier::external_body]
+        pub fn or_default(self) -> (r: &'a mut usize)
+            ensures *r == (if self.map0().contains_key(self.key()) { self.map0()[self.key()] } else { 0usize }),
+                    self.fin() == self.map0().insert(self.key(), *final(r)),
+        { unimplemented!() }
     }
     pub broadcast axiom fn ax_index_map_key_order<K, V>(m: &IndexMap<K, V>)
         ensures (#[trigger] m.key_order()).no_duplicates(), m.key_order().to_set() == m@.dom();
